@@ -12,12 +12,13 @@ for fn in ('patch.diff', 'demo.py', 'demo.sh', 'notes.md'):
 out = subprocess.run(['/verif/tools/try_seed.sh', dst], capture_output=True, text=True).stdout
 lines = out.strip().splitlines()
 detected = sorted({l.split()[0] for l in lines if l.startswith('  C') and 'exit=1' in l})
+undecided = sorted({l.split()[0] for l in lines if l.startswith('  C') and 'exit=2' in l})
 rules = sorted({l.split('rule=')[1].split()[0] for l in lines if 'rule=' in l})
 meta = {'seed': name, 'property': prop, 'breaks': open(os.path.join(dst, 'notes.md')).read()[:1500] if os.path.exists(os.path.join(dst, 'notes.md')) else '',
         'needs_to_manifest': needs,
         'confirmed': {'how': 'tools/try_seed.sh: fresh worktree of /repo HEAD; demo on clean tree; git apply patch.diff; baseline test command; demo on patched tree; ./check <all> --repo <worktree> --dry',
                       'result_line': lines[0] if lines else ''},
-        'detected_by_checks': detected, 'reporting_rules': rules,
+        'detected_by_checks': detected, 'reporting_rules': rules, 'analysis_error_in_checks': undecided,
         'detected_before_strengthening': before == 'yes'}
 json.dump(meta, open(os.path.join(dst, 'meta.json'), 'w'), indent=1)
 print(name, prop, 'detected by', detected, rules)
